@@ -24,6 +24,10 @@
                  'goto-instrument --apply-loop-contracts havocs mutable statics)',
                  'cxx2c rules listed in the evidence carry the C++ semantics over (std::string operations -> stub calls, return by value -> struct copy)'],
  'timeout': 600,
+ 'native_cxx_probes': [{'file': 'units/C18/native/string_codecs_probe.cpp', 'run': True,
+                        'sources': ['igris/util/base64.cpp', 'igris/string/hexascii_string.cpp', 'igris/util/hexascii.c'],
+                        'what': 'real base64 / url-safe base64 / hexascii std::string codecs (not the extraction) against RFC 4648 reference encoders',
+                        'bound': 'all 2801 byte strings of length 0..4 over {00,01,3E,3F,41,F8,FF}'}],
  'witness': {'unwind': 8},
 } @*/
 #include "vc.h"
